@@ -13,6 +13,8 @@ CONSTANTS
     MaxFaults = 3
     MaxCrashes = 2
     MaxReopens = 0
+    MaxFmtFail = 0
+    FmtFails = {}
     Ticks = {"same", "next"}
     RetryTicks = {"same"}
     Phantoms = {0}
